@@ -1,8 +1,11 @@
 package model
 
 import (
+	"encoding/hex"
+	"encoding/json"
 	"hash/fnv"
 	"sort"
+	"unicode/utf8"
 )
 
 // Kinds of schema node.
@@ -177,4 +180,39 @@ func SortedKeys[V any](m map[string]V) []string {
 	}
 	sort.Strings(ks)
 	return ks
+}
+
+type testWire struct {
+	Name string `json:"name"`
+	Not  bool   `json:"not,omitempty"`
+	N    int    `json:"n,omitempty"`
+	Str  string `json:"str,omitempty"`
+	XStr string `json:"xstr,omitempty"`
+	Arg  *Val   `json:"arg,omitempty"`
+	Args []Val  `json:"args,omitempty"`
+	Opts Opts   `json:"opts,omitempty"`
+}
+
+func (t TestSpec) MarshalJSON() ([]byte, error) {
+	w := testWire{Name: t.Name, Not: t.Not, N: t.N, Str: t.Str, Arg: t.Arg, Args: t.Args, Opts: t.Opts}
+	if !utf8.ValidString(t.Str) {
+		w.Str, w.XStr = "", hex.EncodeToString([]byte(t.Str))
+	}
+	return json.Marshal(w)
+}
+
+func (t *TestSpec) UnmarshalJSON(b []byte) error {
+	var w testWire
+	if err := json.Unmarshal(b, &w); err != nil {
+		return err
+	}
+	*t = TestSpec{Name: w.Name, Not: w.Not, N: w.N, Str: w.Str, Arg: w.Arg, Args: w.Args, Opts: w.Opts}
+	if w.XStr != "" {
+		raw, err := hex.DecodeString(w.XStr)
+		if err != nil {
+			return err
+		}
+		t.Str = string(raw)
+	}
+	return nil
 }
